@@ -163,7 +163,7 @@ Proof. exact arc_history_safe. Qed.
 Theorem C03_wtiny_step : forall h s ls o,
   RW h s ls -> wt_inv ls ->
   exists h' s' ls' r, hw_step h s o = HOk (h', s', r) /\ lw_step ls o = Ok (ls', r) /\ RW h' s' ls' /\ wt_inv ls'.
-Proof. exact wtiny_step_refines. Qed.
+Proof. exact (wtiny_step_refines []). Qed.
 
 Theorem C03_wtiny_history : forall t kh wc pc fc os,
   wt_inv (mkWTiny t (lru_new wc false) (slru_new pc fc) kh) ->
@@ -232,6 +232,15 @@ Theorem C03_clone_history : forall c cb os,
     h_drop h q = HOk h' /\ (forall a, cells h' a = Free).
 Proof. exact clone_history_safe. Qed.
 
+(** the conversions ([FromIterator], [Extend], the [From] impls): [new(max 1 n)] and one [put] per pair, on the heap:
+    no memory error, the result is the list model's [from_iter], and the drop frees everything *)
+Theorem C03_from_iter : forall l,
+  exists h q h',
+    hrun (fst (hnew heap0 (Nat.max 1 (length l)))) (snd (hnew heap0 (Nat.max 1 (length l)))) (puts_of l)
+      = HOk (h, q, snd (HeapRun.lrun (lru_new (Nat.max 1 (length l)) false) (puts_of l))) /\
+    R h q (from_iter l) /\ h_drop h q = HOk h' /\ (forall a, cells h' a = Free).
+Proof. exact from_iter_heap. Qed.
+
 Print Assumptions C03_detach.
 Print Assumptions C03_attach.
 Print Assumptions C03_step.
@@ -257,3 +266,4 @@ Print Assumptions C03_family_clone.
 Print Assumptions C03_clone.
 Print Assumptions C03_clone_history.
 Print Assumptions C03_iter_script.
+Print Assumptions C03_from_iter.
